@@ -896,6 +896,15 @@ func (e *ffEngine) call(fn *ssa.Function, b *ssa.BasicBlock, site ssa.CallInstru
 	}
 	// builtins
 	if bi, ok := cc.Value.(*ssa.Builtin); ok {
+		if bi.Name() == "copy" && len(args) == 2 {
+			// (a statement: its effect is on the destination's memory)
+			for _, d := range e.rootCells(args[0]) {
+				e.flowC(d, e.val(args[1]), all)
+				for _, c := range e.rootCells(args[1]) {
+					e.flowC(d, e.cell(c), all)
+				}
+			}
+		}
 		if res == nil {
 			return
 		}
@@ -986,6 +995,13 @@ func (e *ffEngine) call(fn *ssa.Function, b *ssa.BasicBlock, site ssa.CallInstru
 	}
 	if res != nil {
 		e.flowV(res, in, 0)
+		// a pointer-like result may be memory of its own (sync.Pool.Get,
+		// a constructor): what is later written behind it stays there
+		if mayHoldPointer(res.Type()) {
+			if e.val(res).add(e.allocLab(res), 0) {
+				e.change = true
+			}
+		}
 		// aliasing: a pointer-like result may alias pointer-like arguments
 		if mayHoldPointer(res.Type()) {
 			for _, a := range allArgs {
